@@ -129,6 +129,41 @@ impl XPubSocketBackend {
 //@ end
 }
 
+// ---- what a SUB socket sends (src/sub.rs): RFC 29 SUBSCRIBE / CANCEL frame = one octet 0x01 / 0x00 + topic ----
+//@ item src/sub.rs :: enum SubBackendMsgType
+//@ end
+impl vstd::std_specs::convert::FromSpecImpl<Bytes> for ZmqMessage {
+    open spec fn obeys_from_spec() -> bool { true }
+    closed spec fn from_spec(v: Bytes) -> Self { msg_of_one(v) }
+}
+/// the one-frame message made of this frame
+pub uninterp spec fn msg_of_one(b: Bytes) -> ZmqMessage;
+pub broadcast axiom fn axiom_msg_of_one(b: Bytes)
+    ensures (#[trigger] msg_of_one(b)).fr() == seq![b];
+// `impl From<Bytes> for ZmqMessage` is verified in units message / codec (`r.fr() == seq![b]`); here only its contract
+//@ item src/message.rs :: impl From<Bytes> for ZmqMessage
+//@ fn from
+//@ attr
+//@|    #[verifier::external_body]
+//@ ret r
+//@ spec
+//@|        ensures r == msg_of_one(b),
+//@ end
+pub struct SubSocketBackendNs { _p: u8 }
+impl SubSocketBackendNs {
+//@ item src/sub.rs :: impl SubSocketBackend / fn create_subs_message
+//@ name SubSocketBackend::create_subs_message
+//@ ret r
+//@ spec
+//@|        requires str_bytes(subscription).len() < 0x7fff_ffff_ffff_ffff,
+//@|        ensures
+//@|            r.fr().len() == 1,
+//@|            b_view(&r.fr()[0]) == seq![if msg_type is SUBSCRIBE { 1u8 } else { 0u8 }] + str_bytes(subscription),
+//@ hint start
+//@|        broadcast use axiom_msg_of_one;
+//@ end
+}
+
 } // verus!
 pub struct Uuid([u8; 16]);
 impl Uuid {
